@@ -232,22 +232,33 @@ package transport
 //@   callsite deleteQueueC: [C05:removes-own-id] arg1 == gq
 
 // ---- constructors (assumed: they allocate the transport and start its pool; nothing the caller holds changes)
+// Constructors: a new transport is in its initial state - open, nothing dialled, its invariant holds - and keeps
+// the caller's options (dial function, round tripper, closer) as given.
+//@ func nonNilLogger(l *zerolog.Logger) (r *zerolog.Logger)
+//@   props C18
+//@   modifies nothing
+//@   ensures r != nil
 //@ func NewDoHTransport(opts DoHTransportOpts) (t *DoHTransport, err error)
-//@   trusted
+//@   props C17 C18
 //@   modifies nothing
 //@   ensures (err == nil) == (t != nil)
+//@   ensures [C17:requests-go-through-the-given-round-tripper] err == nil ==> fresh(t) && t.rt == opts.RoundTripper && t.closer == opts.Closer && t.logger != nil && t.reqTemplate != nil && t.urlTemplate != nil && t.urlTemplate == t.reqTemplate.URL
+//@   callsite NewRequest: [C17:request-template-for-the-configured-url] arg1 == opts.EndPointUrl
 //@ func NewPipelineTransport(opts PipelineOpts) (t *PipelineTransport)
 //@   trusted
 //@   modifies nothing
 //@   ensures t != nil && fresh(t)
 //@ func NewQuicTransport(opts QuicTransportOpts) (t *QuicTransport)
-//@   trusted
+//@   props C18
 //@   modifies nothing
 //@   ensures t != nil && fresh(t)
+//@   ensures [C18:starts-open-with-nothing-dialled] !t.closed && t.c == nil && t.dialingCall == nil && t.ctx != nil && t.cancelCtx != nil && t.logger != nil && t.opts.DialContext == opts.DialContext
 //@ func NewReuseConnTransport(opts ReuseConnOpts) (t *ReuseConnTransport)
-//@   trusted
+//@   props C18 C06
 //@   modifies nothing
 //@   ensures t != nil && fresh(t)
+//@   ensures [C18:starts-open-with-no-connections] !t.closed && rtInv(t) && t.ctx != nil && t.cancelCause != nil && t.logger != nil && t.opts.DialContext == opts.DialContext
+//@   ensures [C06:no-connection-is-idle-or-tracked-yet] forallkey(k, t.conns, !has(t.conns, k)) && forallkey(k, t.idleConns, !has(t.idleConns, k))
 
 // ---- reuse_transport.go: one-at-a-time connections (C06) and orderly close (C18) ------------------------
 // Typestate of a reusableConn under its mutex: serving (owned by exactly one exchange) or idle; closed is final.
